@@ -256,6 +256,27 @@ impl C12 {
                     ctx.count("truncation_errors_reported", 1);
                 }
             }
+            // reading again without a new fetch (through the other API) must give the same slice
+            if !partial && trunc.is_none() && rng.chance(1, 3) {
+                let again: Result<Result<Vec<u8>, String>, String> = if via_iter {
+                    let mut v = vec![7u8; 2];
+                    guard(|| ir.read(&mut v).map(|_| v.clone()).map_err(|e| e.to_string()))
+                } else {
+                    guard(|| ir.read_iter().map_err(|e| e.to_string())?.collect::<Result<Vec<u8>, _>>().map_err(|e| e.to_string()))
+                };
+                ctx.eval(1);
+                log.push(format!("{} again without a new fetch", if via_iter { "read" } else { "read_iter" }));
+                match again {
+                    Ok(Ok(v)) if v == exp => ctx.count("re_reads_without_fetch", 1),
+                    other => {
+                        ctx.violation(
+                            "ifasta:second-read-after-one-fetch-differs",
+                            desc(format!("second read after one fetch gave {:?}, expected the same {} bytes", other.map(|r| r.map(|v| String::from_utf8_lossy(&v[..v.len().min(30)]).to_string())), exp.len()), &log),
+                        );
+                        return;
+                    }
+                }
+            }
             let posclass = |p: usize| (p == 0, p == len, p % w == 0, p % w == w - 1);
             ctx.shape(len >= 2, &("C12", (w == 1, w < 10, w >= 60), fs.crlf, posclass(a), posclass(b), by_rid, via_iter, partial, trunc.is_some(), size_class(b - a), chunk.min(8)));
         }
@@ -263,6 +284,62 @@ impl C12 {
         if ctx.wants_sample("history") && fs.file.len() < 300 {
             ctx.sample("history", || Obj::new().b("fasta", &fs.file).s("fai", &fs.fai).d("ops", &log).done());
         }
+    }
+}
+
+impl C12 {
+    /// path-based entry points: IndexedReader::from_file (expects <path>.fai), Index::sequences
+    fn file_case(&self, ctx: &mut Ctx, rng: &mut Rng, fs: &FileSpec) {
+        let dir = std::env::temp_dir().join(format!("biomon-c12-{}-{}", std::process::id(), ctx.index));
+        let _ = std::fs::create_dir_all(&dir);
+        let path = dir.join("ref.fa");
+        let fai = dir.join("ref.fa.fai");
+        if std::fs::write(&path, &fs.file).is_err() || std::fs::write(&fai, &fs.fai).is_err() {
+            let _ = std::fs::remove_dir_all(&dir);
+            ctx.count("file_cases_skipped_io_error", 1);
+            return;
+        }
+        let r = guard(|| -> Result<Vec<String>, String> {
+            let mut problems = vec![];
+            let mut ir = IndexedReader::from_file(&path).map_err(|e| e.to_string())?;
+            let seqs = ir.index.sequences();
+            let got: Vec<(String, u64)> = seqs.iter().map(|s| (s.name.clone(), s.len)).collect();
+            let exp: Vec<(String, u64)> = fs.names.iter().zip(&fs.seqs).map(|(n, s)| (n.clone(), s.len() as u64)).collect();
+            if got != exp {
+                problems.push(format!("Index::sequences() = {:?} expected {:?}", got, exp));
+            }
+            for (r, seq) in fs.seqs.iter().enumerate() {
+                let a = seq.len() / 3;
+                let b = seq.len() - seq.len() / 4;
+                ir.fetch(&fs.names[r], a as u64, b as u64).map_err(|e| e.to_string())?;
+                let mut v = vec![];
+                ir.read(&mut v).map_err(|e| e.to_string())?;
+                if v != seq[a..b] {
+                    problems.push(format!("from_file reader: fetch({}, {}..{}) returned {} bytes that differ", fs.names[r], a, b, v.len()));
+                }
+                ir.fetch_all_by_rid(r).map_err(|e| e.to_string())?;
+                let w: Vec<u8> = ir.read_iter().map_err(|e| e.to_string())?.collect::<Result<Vec<u8>, _>>().map_err(|e| e.to_string())?;
+                if w != *seq {
+                    problems.push(format!("from_file reader: fetch_all_by_rid({}) differs", r));
+                }
+            }
+            Ok(problems)
+        });
+        ctx.eval(2 * fs.seqs.len() as u64 + 1);
+        let _ = std::fs::remove_dir_all(&dir);
+        let desc = |w: String| Obj::new().s("fai", &fs.fai).u("file_len", fs.file.len() as u64).s("what", &w).done();
+        match r {
+            Err(p) => ctx.violation(&format!("ifasta:from_file-panic:{}", panic_site(&p)), desc(p)),
+            Ok(Err(e)) => ctx.violation("ifasta:from_file-valid-file-rejected", desc(e)),
+            Ok(Ok(problems)) => {
+                if let Some(p) = problems.first() {
+                    ctx.violation("ifasta:from_file-wrong-data", desc(p.clone()));
+                }
+            }
+        }
+        let _ = rng;
+        ctx.shape(true, &("C12", "file", fs.seqs.len(), fs.crlf));
+        ctx.count("file_path_cases", 1);
     }
 }
 
@@ -286,7 +363,7 @@ impl Monitor for C12 {
          record length 1..=2000 quick / 40000 thorough crossing the 512-byte iterator buffer and the 8 KiB BufReader) with its samtools-style .fai, opened through a seekable \
          reader that fragments read() into 1..=c bytes (c in {1,2,3,7,64,unbounded}), optionally truncated at a random offset; then a history of 4-12 operations on one \
          IndexedReader: fetch / fetch_by_rid / fetch_all / fetch_all_by_rid with start/stop at 0, len, line starts, line ends, random; read into a buffer with stale content or \
-         read_iter fully / half consumed with size_hint checked after every item; error classes unknown name, unknown rid, stop > len, start > stop, read before fetch. Oracle: \
+         read_iter fully / half consumed with size_hint checked after every item; error classes unknown name, unknown rid, stop > len, start > stop, read before fetch; a second read through the other API without a new fetch; the path-based IndexedReader::from_file with Index::sequences(). Oracle: \
          seq[start..stop] from the generator's copy; Ok with other bytes is a violation; on truncated files Err is accepted only if the request needs bytes beyond the cut. \
          shape = (width class, crlf, start/stop position classes, by name/rid, read/iter, partial, truncated, length class, fragment size); non-trivial = record length >= 2"
     }
@@ -302,6 +379,9 @@ impl Monitor for C12 {
                 _ => build_file(rng, 4, 200, crlf, g % 3 == 0, false),
             };
             self.history(ctx, rng, &fs, None, 12);
+            if !ctx.tiny() {
+                self.file_case(ctx, rng, &fs);
+            }
             // every truncation class on the same file
             let cuts = [0usize, 1, fs.file.len() / 3, fs.file.len() / 2, fs.file.len().saturating_sub(3), fs.file.len().saturating_sub(1)];
             for &c in &cuts {
@@ -313,6 +393,9 @@ impl Monitor for C12 {
         let ml = if rng.chance(1, 10) { maxlen } else { 400.min(maxlen) };
         let (f1, f2, f3) = (rng.chance(1, 2), rng.chance(3, 4), rng.chance(1, 5));
         let fs = build_file(rng, nrec, ml, f1, f2, f3);
+        if rng.chance(1, 60) && !ctx.tiny() {
+            return self.file_case(ctx, rng, &fs);
+        }
         let trunc = if rng.chance(1, 3) { Some(rng.usize(fs.file.len() + 1)) } else { None };
         let nops = rng.range(4, 12);
         self.history(ctx, rng, &fs, trunc, nops);
